@@ -44,11 +44,13 @@ import (
 // ---------- abstract template (see spec/WorkflowLoad.tla) ----------
 
 type ForSpec struct {
-	T   string `json:"t"` // list | var | be
+	T   string `json:"t"` // list | var | dep | be
 	S   string `json:"s"` // list: JSON list text
 	B   int    `json:"b"`
 	E   int    `json:"e"`
-	X   string `json:"x"` // var: variable holding a JSON list text
+	Bv  string `json:"bv"` // be: variable giving `begin` ("" = the literal b)
+	Ev  string `json:"ev"` // be: variable giving `end` ("" = the literal e)
+	X   string `json:"x"`  // var: variable holding a JSON list text; dep: variable selecting the list variable cards_<value>
 	Var string `json:"var"`
 }
 
@@ -146,9 +148,19 @@ func render(w *strings.Builder, T []Node, i int, ind string, listItem bool) {
 			w.WriteString(ind + "  range: " + yq(f.S) + "\n")
 		case "var":
 			w.WriteString(ind + "  range: " + yq("{{ "+f.X+" }}") + "\n")
+		case "dep":
+			// the range depends on an (outer iteration) variable: the list held by the variable cards_<value of x>
+			w.WriteString(ind + "  range: " + yq("{{ $env['cards_' + "+f.X+"] }}") + "\n")
 		case "be":
-			w.WriteString(ind + "  begin: " + yq(strconv.Itoa(f.B)) + "\n")
-			w.WriteString(ind + "  end: " + yq(strconv.Itoa(f.E)) + "\n")
+			b, e := strconv.Itoa(f.B), strconv.Itoa(f.E)
+			if f.Bv != "" {
+				b = "{{ " + f.Bv + " }}"
+			}
+			if f.Ev != "" {
+				e = "{{ " + f.Ev + " }}"
+			}
+			w.WriteString(ind + "  begin: " + yq(b) + "\n")
+			w.WriteString(ind + "  end: " + yq(e) + "\n")
 		}
 		w.WriteString(ind + "  var: " + f.Var + "\n")
 	}
